@@ -66,6 +66,8 @@ class _LogCapture(logging.Handler):
     self.records.append((record.name, record.levelno, msg, loop.now()))
 
 
+# generated Thrift processors log handler exceptions on the root logger: keep them off stderr
+logging.getLogger().addHandler(logging.NullHandler())
 _SCALES_LOG = logging.getLogger('scales')
 _SCALES_LOG.propagate = False
 _SCALES_LOG.setLevel(logging.DEBUG)
